@@ -64,4 +64,30 @@ PROPS = {
         level_text="1-4 clients issue 2-6 searches/streams/listings each from a small query pool biased to repeat metadata atoms, sequentially and concurrently, against one shardedSearcher loaded with ZOEKT_DOCMATCHTREE_CACHE unset/1/2/8/64 (cache eviction order = map order, drawn from the tape); every answer (files, matches, branches, scores) must equal the answer of the same query run alone on freshly loaded shards without cache; no panic, Stats.Crashes == 0.",
         level_note="Samples histories/schedules over 12 generated corpora; query space sampled from a small grammar.",
     ),
+    "C21": dict(
+        group="search", level="exploration", rule=SCHED_RULE,
+        harnesses=[dict(name="C21", quick=14000, thorough=600000, quick_deadline_s=170, thorough_deadline_s=1500)],
+        expect_probes=["cancelled-in-flight", "returned-ctx-error", "files-removed-by-limit-or-cancel"],
+        components=S_COMPONENTS, assumptions=COMMON_ASSUME + ["promptness is only judged in runs without time jumps and with zero-cost steps, where simulated time can only pass if the cancelled call itself waits on a timer"],
+        technique="deterministic simulation: seeded schedules with cancellation/deadline injected at arbitrary scheduling points on the fake clock, self-differential against the unlimited uncancelled per-shard answers",
+        level_text="1-3 concurrent Search/StreamSearch calls with shard/repo/total match limits from {0,1,2,5,1000}, cancellation by a canceller task at an arbitrary scheduling point, context deadlines and MaxWallTime on the fake clock (steps cost 0, 100us or 1ms of simulated time); every returned file must be identical (matches, branches) to a file of the unlimited, uncancelled reference; a call may fail only with the context's error and only if it was cancellable; never a panic or crash count; a cancelled call returns without waiting for any timer.",
+        level_note="Samples schedules, limits and cancellation points; reference is per-shard sequential search (self-differential).",
+    ),
+    "C22": dict(
+        group="search", level="exploration", rule=SCHED_RULE,
+        harnesses=[dict(name="C22", quick=14000, thorough=600000, quick_deadline_s=170, thorough_deadline_s=1500)],
+        expect_probes=["file-cut-at-limit", "truncated-by-display-limit"],
+        components=S_COMPONENTS, assumptions=COMMON_ASSUME + ["ranking is compared up to score ties and the documented promotion of one novel-extension file into third place", "streaming results are only required to be ranked inside each event"],
+        technique="deterministic simulation: seeded schedules (worker width, flush timer vs. results races on the fake clock) of display-limited Search/StreamSearch, self-differential against the unlimited per-shard answers",
+        level_text="1-2 clients issue Search/StreamSearch with MaxDocDisplayCount/MaxMatchDisplayCount from {0,1,2,3,5/7,100}, line and chunk mode, 0-2 context lines, default and BM25 scoring, FlushWallTime 0..500ms racing the results; checked per answer: limits respected, every returned file is a leading-match prefix of the same file in the unlimited result with the same score, only the last file is cut and only when the match limit is exactly exhausted, a shortened chunk is whole lines covering its remaining ranges plus context (recomputed from the document text), nothing is missing unless a limit is exhausted, non-streaming results are the top of the unlimited ranking (up to ties and the single promotion), each stream event is ranked.",
+        level_note="Samples schedules, limits and queries on 12 generated corpora.",
+    ),
+    "C29": dict(
+        group="search", level="exploration", rule=SCHED_RULE + " A run is non-trivial only if at least two answers with more than one file were compared.",
+        harnesses=[dict(name="C29", quick=10000, thorough=400000, quick_deadline_s=170, thorough_deadline_s=1500)],
+        components=S_COMPONENTS, assumptions=COMMON_ASSUME + ["claim limited to schedule/worker-width/map-order/DebugScore independence of the ranking and the order invariants on what the simulation produces; the scoring arithmetic over all inputs is not claimed (input space)"],
+        technique="deterministic simulation: the same search issued repeatedly by 2-4 concurrent clients under seeded schedules, worker widths and map-iteration orders; rankings compared with each other and against order invariants",
+        level_text="One (query, options) pair per run is issued 2-12 times by 2-4 concurrent clients (worker width 1-16, scheduler capacity 1-4, map iteration order from the tape, DebugScore on and off, default and BM25 scoring, line and chunk mode); every answer must have finite scores, matches ordered by non-increasing score inside each file, files ordered by non-increasing score except the single novel-extension promotion into third place, and all answers must agree on the file->score map and on the score at every rank (order may differ only among equal scores).",
+        level_note="Samples schedules; comparison is among answers of the same run (self-differential).",
+    ),
 }
